@@ -32,15 +32,23 @@ def life_cycle(rng, sid, small):
         p = P(p.codec, p.k, p.r, m=p.m, N1=p.N1, seed=p.seed, length=rng.choice(list(range(1, 41)) + [64, 100, 255, 1000]),
               payload="rnd", align=rng.choice([0, 0, 1, 3]))
     if role == "enc":
-        return gen.encode_exec(p, slots=rng.choice(["buf", "null"]), s=sid, both=rng.random() < 0.1)
+        return _verbose(rng, gen.encode_exec(p, slots=rng.choice(["buf", "null"]), s=sid, both=rng.random() < 0.1))
     keep = rng.uniform(0.5, 1.0)
     sub = [e for e in range(p.n) if rng.random() < keep]
     rng.shuffle(sub)
     api = rng.choice(["recv", "recv", "setavail"])
     if api == "setavail":
         sub = sorted(sub)
-    return gen.decode_exec(p, sub, api=api, finish=rng.choice([True, True, False]), cb=rng.choice([None, "buf", "null", "mix"]),
-                           probe=rng.choice(["each", "end"]), s=sid, **({"both": True, "builds_before": rng.choice([0, 1, p.r])} if rng.random() < 0.1 else {}))
+    return _verbose(rng, gen.decode_exec(p, sub, api=api, finish=rng.choice([True, True, False]), cb=rng.choice([None, "buf", "null", "mix"]),
+                                         probe=rng.choice(["each", "end"]), s=sid, **({"both": True, "builds_before": rng.choice([0, 1, p.r])} if rng.random() < 0.1 else {})))
+
+
+def _verbose(rng, lines):
+    """one session in eight is created with a verbosity of 1 or 2: the setting is process-wide in the library
+    (overwritten by every create), and must change nothing but what is printed -- for this session and the others"""
+    if rng.random() < 0.125 and lines and lines[0].startswith("create "):
+        lines = [lines[0] + " v%d" % rng.choice([1, 2])] + list(lines[1:])
+    return lines
 
 
 def interleave(rng, seqs):
